@@ -270,6 +270,19 @@ func runTwin(sc *TwinScript) *sim.Outcome {
 				a += fmt.Sprintf(" wire=%x", sha256.Sum256(bytes.Join(c0[i].Out, []byte{0xff})))
 				b += fmt.Sprintf(" wire=%x", sha256.Sum256(bytes.Join(c1[i].Out, []byte{0xff})))
 			}
+			if a != b && !exact && c0[i].Name == "Receive" && c1[i].Name == "Receive" {
+				if t0, _ := typeOf(c0[i].In); t0 == ref.TypeDHCommit {
+					if t1, _ := typeOf(c1[i].In); t1 == ref.TypeDHCommit && len(c0[i].Out) > 0 && len(c1[i].Out) > 0 {
+						// two D-H Commits crossed: who gives way is decided by comparing hashes of random values, and the
+						// worlds no longer share their randomness (the rejected message consumed some): either answer is
+						// right, and nothing after it can be compared
+						o.Class("crossing-commits-tie-break")
+						o.Class(kind)
+						o.NonTrivial = true
+						return false
+					}
+				}
+			}
 			if a != b {
 				o.Fail("C06/"+kind, "after a rejected input (%s) %s diverges from the run in which the input never arrived:\n  without: %s\n  with:    %s", kind, what, clip(a), clip(b))
 				return false
